@@ -2,7 +2,7 @@
     sniproxy/tls_hello_conn.go (Gen/HelloConsts.v).  Each is decided by
     computation; when the source changes, the [Lemma] stops checking. *)
 From Coq Require Import List NArith Bool String Lia.
-From Verif Require Import Lib.Bytes Sni.Wire Sni.Hello Sni.Handover Sni.HelloResult Gen.HelloConsts.
+From Verif Require Import Lib.Bytes Sni.Wire Sni.Hello Sni.Handover Sni.HelloResult Sni.HelloDeadline Gen.HelloConsts.
 Import ListNotations.
 Local Open Scope N_scope.
 
@@ -33,6 +33,11 @@ Proof. vm_compute. reflexivity. Qed.
     a part of a pooled object, not a package-level variable. *)
 Lemma gen_hello_result_fresh : origin_freshb gen_hello_result_origin = true.
 Proof. vm_compute. reflexivity. Qed.
+
+(** tls_hello_conn.go makes no Set*Deadline call: sniffing leaves the
+    connection's deadline state untouched. *)
+Lemma gen_hello_no_deadline_calls : gen_hello_deadline_calls = [].
+Proof. reflexivity. Qed.
 
 Lemma gen_hello_result_origin_eq : gen_hello_result_origin = OFresh.
 Proof. reflexivity. Qed.
